@@ -459,6 +459,12 @@ func ruleC15R4(r *Run) {
 					if isSyncMap && strings.HasPrefix(key, "(*sync.Map).") {
 						continue
 					}
+					if why, decided := p.ptrArgWritten(x, addr, 0); decided {
+						if why != "" {
+							bad = "it is written through the pointer passed to " + key + " in " + p.fnName(ref.Parent()) + " (" + why + ")"
+						}
+						continue
+					}
 					bad = "its address is passed to " + key + " in " + p.fnName(ref.Parent())
 				case *ssa.UnOp, *ssa.DebugRef:
 				default:
@@ -512,6 +518,12 @@ func ruleC15R4(r *Run) {
 						}
 						key := p.calleeKey(x.Common())
 						if isSyncMap && strings.HasPrefix(key, "(*sync.Map).") {
+							continue
+						}
+						if why, decided := p.ptrArgWritten(x, g, 0); decided {
+							if why != "" {
+								bad = "it is written through the pointer passed to " + key + " in " + p.fnName(fn) + " (" + why + ")"
+							}
 							continue
 						}
 						bad = "its address is passed to " + key + " in " + p.fnName(fn)
@@ -699,7 +711,6 @@ func hasAnyPrefix(s string, pre []string) bool {
 	return false
 }
 
-
 // isFreeVarLoad: v is a load through a captured variable cell.
 func isFreeVarLoad(v ssa.Value) bool {
 	u, ok := v.(*ssa.UnOp)
@@ -718,7 +729,6 @@ func mutableObject(v ssa.Value) bool {
 	}
 	return t.String() == "reflect.Value"
 }
-
 
 func freeVarOf(v ssa.Value) *ssa.FreeVar {
 	if fv, ok := v.(*ssa.FreeVar); ok {
@@ -764,4 +774,73 @@ func (p *Program) outlivesParent(g, owner *ssa.Function) bool {
 		g = par
 	}
 	return false
+}
+
+// ptrArgWritten: the pointer ptr is an argument of call c to a function of the package; reports whether that function
+// (or one it hands the pointer on to) stores through it. decided=false if the callee cannot be analysed.
+func (p *Program) ptrArgWritten(c ssa.CallInstruction, ptr ssa.Value, d int) (string, bool) {
+	sc := c.Common().StaticCallee()
+	if sc == nil || !p.inRapid(sc) || sc.Blocks == nil || d > 3 {
+		return "", false
+	}
+	if o := sc.Origin(); o != nil {
+		sc = o
+	}
+	for k, a := range c.Common().Args {
+		if a != ptr || k >= len(sc.Params) {
+			continue
+		}
+		why, ok := p.writesThroughPtr(sc.Params[k], d, map[ssa.Value]bool{})
+		if !ok {
+			return "", false
+		}
+		if why != "" {
+			return why, true
+		}
+	}
+	return "", true
+}
+
+func (p *Program) writesThroughPtr(v ssa.Value, d int, seen map[ssa.Value]bool) (string, bool) {
+	if seen[v] || v.Referrers() == nil {
+		return "", true
+	}
+	seen[v] = true
+	for _, ref := range *v.Referrers() {
+		switch x := ref.(type) {
+		case *ssa.DebugRef, *ssa.UnOp:
+		case *ssa.FieldAddr, *ssa.IndexAddr:
+			why, ok := p.writesThroughPtr(x.(ssa.Value), d, seen)
+			if !ok || why != "" {
+				return why, ok
+			}
+		case *ssa.Store:
+			if x.Addr == v {
+				return "store at " + p.pos(x.Pos()), true
+			}
+			return "", false // the pointer itself is stored somewhere
+		case *ssa.Phi:
+			why, ok := p.writesThroughPtr(x, d, seen)
+			if !ok || why != "" {
+				return why, ok
+			}
+		case *ssa.Return:
+			return "", false // handed back to the caller: not followed
+		case ssa.CallInstruction:
+			why, ok := p.ptrArgWritten(x, v, d+1)
+			if !ok {
+				key := p.calleeKey(x.Common())
+				if hasAnyPrefix(key, readOnlyCalleePrefixes) {
+					continue
+				}
+				return "", false
+			}
+			if why != "" {
+				return why, true
+			}
+		default:
+			return "", false
+		}
+	}
+	return "", true
 }
